@@ -987,7 +987,12 @@ impl<K: EnrKey> std::cmp::Eq for Enr<K> {}
 
 impl<K: EnrKey> PartialEq for Enr<K> {
     fn eq(&self, other: &Self) -> bool {
-        self.seq == other.seq && self.node_id == other.node_id && self.signature == other.signature
+        // The signature normally pins the content, but a signature scheme may accept one signature
+        // for several contents (ed25519 keys of small order do), so the content is compared as well.
+        self.seq == other.seq
+            && self.node_id == other.node_id
+            && self.signature == other.signature
+            && self.content == other.content
     }
 }
 
